@@ -501,6 +501,9 @@ class InMemMap(BaseMap):
             for nbr in nbrs:
                 if label == nbr:
                     continue
+                if nbr not in self.graph:
+                    # Node has been removed (del_node, purge), same as in all_edges and nodes_nbrto
+                    continue
                 nbr_data = self.graph[nbr]
                 dist, pi, ti = self.distance_point_to_segment(loc, oloc, nbr_data[0])
                 # print(f"label={label}/{oloc}, nbr={nbr}/{nbr_data[0]}   -- loc={loc}  -> {dist}, {pi}, {ti}")
